@@ -10,23 +10,29 @@ CONFIG = {
                  "variant, judged by an independent backtracking isomorphism test => different bytes)",
     "level_text": "Proof, for every hash function, depth guard and permutation limit (kernel-checked, no native_decide): (complete) two well-formed "
                   "datasets canonicalised to the same bytes are isomorphic; (issued_bij) the returned id map is injective with range exactly "
-                  "c14n0..c14n(n-1); (relabel_applies) the returned quads are the input with that map applied; (issued_total, step6_never_panics) "
-                  "every blank node gets an identifier and the unwrap of step 6 is unreachable; (sorted_is_line_order) the term-wise comparison of the "
+                  "c14n0..c14n(n-1); (relabel_applies) the returned quads are the input with that map applied; (issued_total, issued_dom_iff, step6_never_panics, relabel_outcomes_explicit) "
+                  "the map's domain is exactly the blank nodes of the dataset, no unwrap of step 6 / hash_related_bnode / hash_n_degree_quads can fail, "
+                  "the recursion depth is bounded by the number of blank nodes, so the only outcomes are a result, Unsupported, ToxicGraph(depth|perms); (sorted_is_line_order) the term-wise comparison of the "
                   "final sort is the code-point order of the N-Quads lines; (first_degree_invariant) first-degree hashes are invariant under "
                   "relabelling and reordering; (sound_distinct_partial) isomorphic datasets get identical bytes when all first-degree hashes are distinct. "
                   "The theorems are about the functions the driver executes; their tie to rdfc10.rs is the differential (out / id map / error kind / "
-                  "digests agree on every generated case, both hashes, all limits). The unrestricted direction isomorphic => same bytes (SoundFull) is NOT "
-                  "proved: it is tested on the implementation by the metamorphic oracle (relabel / reorder / container => same bytes; one-edit "
+                  "digests agree on every generated case, both hashes, all limits). The unrestricted direction isomorphic => same bytes (SoundFull) is REFUTED "
+                  "(soundFull_refuted, native_decide on a 5-quad dataset: finding C05-rdfc10-ambiguous-tie, a defect of the W3C algorithm which the "
+                  "implementation follows); outside that class it is tested on the implementation by the metamorphic oracle (relabel / reorder / container => same bytes; one-edit "
                   "non-isomorphic variants => different bytes).",
-    "level_note": "Trusted: the hand-written model (tied per case), sha2 crate (validated per digest), Rust str order = code-point "
+    "level_note": "Known finding C05-rdfc10-ambiguous-tie: label-/order-dependent output exactly where the transcription of RDFC-1.0 is itself ambiguous "
+                  "(driver field x.amb=1: the Recommendation evaluated on the dataset enumerated forwards and backwards gives two documents); on such datasets "
+                  "the model's bytes are compared only for the order-preserving container. Trusted: the hand-written model (tied per case), sha2 crate (validated per digest), Rust str order = code-point "
                   "order. The unrestricted soundness direction needs collision-freeness of the hash and is stated, not proved "
-                  "(SophiaProofs.C05.SoundFull). The id map of automorphic nodes depends on the dataset's iteration order, so it is compared with the model "
-                  "only for the order-preserving container.",
+                  "(SophiaProofs.C05.SoundFull). The id map itself is NOT compared with the model (which automorphic node gets which id depends on iteration "
+                  "order / permutation enumeration / tie order of an unstable sort and is not part of the property): the harness checks that it is a bijection "
+                  "onto c14n0..n-1 mapping the input onto the returned quads, and the canonical bytes are compared exactly.",
     "tables": ["cnq_escapes", "rdfc10_smaller_path"],
     "lean_targets": ["SophiaProofs.Props.C05", "SophiaProofs.Audit.C05"],
-    "theorems": ["issued_bij", "relabel_applies", "issued_total", "step6_never_panics", "relabel_outcomes", "first_degree_invariant",
-                 "sorted_is_line_order", "output_lines_sorted", "complete", "sound_distinct_partial"],
-    "native_ok": [],
+    "theorems": ["issued_bij", "relabel_applies", "issued_total", "issued_dom_iff", "step6_never_panics", "relabel_outcomes_explicit",
+                 "flag_predicate_must_be_iri", "first_degree_invariant",
+                 "sorted_is_line_order", "output_lines_sorted", "complete", "sound_distinct_partial", "soundFull_refuted"],
+    "native_ok": ["soundFull_refuted"],
     "trivial_re": r"^st=unsupported|^h=",
     "rule": "symmetric-structure generator (cycles 1-10(22), chains, cliques 2-5, stars, double stars, bipartite, disjoint isomorphic copies, "
             "blank graph names, same edges in several graphs, hubs with multi-edges across graphs to equal-hash siblings plus a non-automorphic near-twin "
@@ -38,6 +44,16 @@ CONFIG = {
     "trusted_base": ["model lean/SophiaModel/Model/{Rdfc10,Cnq,Sha2}.lean (differentially tied)", "sha2 0.10 (every digest compared with the Lean SHA-2)",
                      "harness-side backtracking isomorphism test (independent of sophia_isomorphism)"],
     "assumptions": ["Rust str/[u8;N] comparison = code-point / hex-string order (DESIGN 3.1)",
-                    "sort_unstable_by_key on <= 20 elements keeps equal keys in order (std small-sort = insertion sort); beyond that the id map is not compared"],
+                    "ties of sort_unstable_by_key in step 5.3 only reorder automorphic nodes (the id map is not compared, only the bytes)"],
     "exec_timeout": 3000,
 }
+
+
+@predicate
+def c05_rdfc10_ambiguous_tie(failure):
+    """label- / order-dependent output on a dataset on which the transcription of RDFC-1.0 is itself ambiguous (the Lean driver
+    evaluates the Recommendation on the dataset enumerated forwards and backwards and reports x.amb=1 when the two documents differ)"""
+    if failure.get("field") not in ("FAIL.label_dependent", "FAIL.order_dependent"):
+        return False
+    M = kv(failure["model"])
+    return M.get("x.amb") == "1" and M.get("st") == "ok"
